@@ -5,7 +5,8 @@
 From Coq Require Import ZArith NArith List String Bool.
 From CB Require Import Crypto.Alg Crypto.Transcript Crypto.TranscriptProofs Crypto.SigmaGeneric Crypto.SigmaCodec
   Crypto.Sigma_dlog Crypto.Sigma_dlogeq Crypto.Sigma_com_eq Crypto.Sigma_com_enc_eq Crypto.Sigma_com_mult
-  Crypto.Sigma_aggregate_dlog Crypto.SigmaExec.
+  Crypto.Sigma_aggregate_dlog Crypto.Sigma_enc_trans Crypto.Sigma_com_lin Crypto.Sigma_com_eq_diff Crypto.Sigma_com_ineq
+  Crypto.SigmaExec.
 Import ListNotations.
 
 (** * Generic algebra *)
@@ -137,6 +138,28 @@ Theorem replicate_binds_every_instance_v1 : forall (K : FieldOps) (P : proto K) 
 Proof. exact @rep_public_prefix_free_v1_. Qed.
 Print Assumptions replicate_binds_every_instance_v1.
 
+Theorem replicate_binds_every_instance_fixed_size : forall (K : FieldOps) (P : proto K) k ok n,
+  public_prefix_free P k ok ->
+  public_prefix_free (rep_proto P) k (fun ss => List.length ss = n /\ Forall ok ss).
+Proof. exact @rep_public_prefix_free_fixed_size_. Qed.
+Print Assumptions replicate_binds_every_instance_fixed_size.
+(** a replicated proof with a response list of the wrong length is rejected (truncated-response attack) *)
+Theorem replicate_rejects_wrong_length : forall (K : FieldOps) (P : proto K) ss c zs a,
+  p_extract (rep_proto P) ss c zs = Some a -> List.length zs = List.length ss.
+Proof. exact @rep_extract_length_. Qed.
+Print Assumptions replicate_rejects_wrong_length.
+
+(** context binding under V1 for contexts of any (different) lengths *)
+Theorem context_binding_v1_any_length : forall (K : FieldOps) (H : bytes -> bytes) (sfb : bytes -> K) (P : proto K) sch n,
+  schema_prefix_free sch -> frame_is_messages P sch n ->
+  forall (ms ms' : list lmsg) s s' pi,
+  Forall (conforms sch) ms -> Forall (conforms sch) ms' -> ms <> ms' ->
+  fst (verify H sfb P V1 (enc_lmsgs V1 ms) s pi) = true ->
+  fst (verify H sfb P V1 (enc_lmsgs V1 ms') s' pi) = true ->
+  exists x x', x <> x' /\ H x = H x'.
+Proof. exact @context_binding_v1_any_length_. Qed.
+Print Assumptions context_binding_v1_any_length.
+
 (** * Protocol instances: completeness, special soundness, [public] covers the statement *)
 Section Instances.
   Context (K : FieldOps) (KL : FieldLaws K) (M : ModOps K) (ML : ModLaws M) (Cd : CodecOps M) (CL : CodecLaws Cd).
@@ -198,6 +221,58 @@ Section Instances.
   Theorem aggregate_dlog_public_covers_statement_legacy_fixed_size : forall n,
     public_prefix_free (agg_proto Cd) Legacy (fun s => List.length (ag_coeff s) = n).
   Proof. exact (agg_public_prefix_free_legacy_fixed_size_ Cd). Qed.
+  (** the hypothesis of [context_binding_v1_any_length] holds for dlog *)
+  Theorem dlog_frame_is_messages : frame_is_messages (dlog_proto Cd) (fixed_len_schema (glen Cd)) 3.
+  Proof. exact (dlog_frame_is_messages_ Cd). Qed.
+
+  Theorem aggregate_dlog_rejects_wrong_length : forall (s : agg_stmt M) c z a, agg_extract s c z = Some a ->
+    List.length z = List.length (ag_coeff s).
+  Proof. intros s c z a E. exact (proj2 (agg_extract_generic s c z a E)). Qed.
+
+  Theorem enc_trans_complete : complete (enc_trans_proto Cd) enc_trans_rel enc_trans_rok.
+  Proof. exact (enc_trans_complete_ Cd). Qed.
+  Theorem enc_trans_special_sound : special_sound (enc_trans_proto Cd) enc_trans_rel enc_trans_extractor.
+  Proof. exact (enc_trans_special_sound_ Cd). Qed.
+  Theorem enc_trans_rejects_wrong_length : forall (s : enc_trans_stmt M) c zc z1 z2 a,
+    enc_trans_extract s c (zc, z1, z2) = Some a ->
+    List.length z1 = List.length (et_e1 s) /\ List.length z2 = List.length (et_e2 s).
+  Proof. exact enc_trans_extract_length_. Qed.
+  Theorem enc_trans_public_covers_statement_v1 :
+    public_prefix_free (enc_trans_proto Cd) V1
+      (fun s => (N.of_nat (List.length (et_e1 s)) < W64)%N /\ (N.of_nat (List.length (et_e2 s)) < W64)%N).
+  Proof. exact (enc_trans_public_prefix_free_v1_ Cd). Qed.
+  Theorem enc_trans_public_covers_statement_fixed_size : forall k n1 n2,
+    public_prefix_free (enc_trans_proto Cd) k (fun s => List.length (et_e1 s) = n1 /\ List.length (et_e2 s) = n2).
+  Proof. exact (enc_trans_public_prefix_free_fixed_size_ Cd). Qed.
+
+  Theorem com_lin_complete : complete (com_lin_proto Cd) com_lin_rel com_lin_rok.
+  Proof. exact (com_lin_complete_ Cd). Qed.
+  Theorem com_lin_special_sound : special_sound (com_lin_proto Cd) com_lin_rel com_lin_extractor.
+  Proof. exact (com_lin_special_sound_ Cd). Qed.
+  Theorem com_lin_rejects_wrong_length : forall (s : com_lin_stmt M) c zs ss sf a, com_lin_extract s c (zs, ss, sf) = Some a ->
+    List.length zs = List.length (cl_cmms s) /\ List.length ss = List.length (cl_cmms s) /\
+    List.length (cl_us s) = List.length (cl_cmms s).
+  Proof. exact com_lin_extract_length_. Qed.
+  Theorem com_lin_public_covers_statement_v1 :
+    public_prefix_free (com_lin_proto Cd) V1
+      (fun s => (N.of_nat (List.length (cl_us s)) < W64)%N /\ (N.of_nat (List.length (cl_cmms s)) < W64)%N).
+  Proof. exact (com_lin_public_prefix_free_v1_ Cd). Qed.
+  Theorem com_lin_public_covers_statement_fixed_size : forall k n,
+    public_prefix_free (com_lin_proto Cd) k (fun s => List.length (cl_us s) = n /\ List.length (cl_cmms s) = n).
+  Proof. exact (com_lin_public_prefix_free_fixed_size_ Cd). Qed.
+
+  (** com_ineq (wrapper around ComMult with its own legacy transcript prefix) *)
+  Theorem com_ineq_complete : forall (H : bytes -> bytes) (sfb : bytes -> K) g h x xt v r2 rnd, x <> v ->
+    exists proof, prove_com_ineq Cd H sfb g h x xt v r2 rnd = Some proof /\
+                  verify_com_ineq Cd H sfb g h (Gadd M (smul M x g) (smul M xt h)) v proof = true.
+  Proof. intros H sfb. exact (com_ineq_complete_ Cd H sfb). Qed.
+  Theorem com_ineq_extracted_witness : forall (g h c : M) v aux x1 x2 r1 r2 r3,
+    com_mult_rel (com_ineq_stmt g h c v aux) (x1, x2, r1, r2, r3) ->
+    c = Gadd M (smul M (Fadd K x1 v) g) (smul M r1 h) /\ (x1 = F0 K -> g = smul M r3 h).
+  Proof. exact com_ineq_extracted_witness_. Qed.
+  Theorem com_ineq_context_covers_statement : forall g h c v g' h' c' v' x y,
+    com_ineq_ctx Cd g h c v ++ x = com_ineq_ctx Cd g' h' c' v' ++ y -> g = g' /\ h = h' /\ c = c' /\ v = v' /\ x = y.
+  Proof. exact (com_ineq_ctx_injective_ Cd). Qed.
 End Instances.
 Print Assumptions dlog_complete.
 Print Assumptions dlog_special_sound.
@@ -220,6 +295,36 @@ Print Assumptions aggregate_dlog_complete.
 Print Assumptions aggregate_dlog_special_sound.
 Print Assumptions aggregate_dlog_public_covers_statement_v1.
 Print Assumptions aggregate_dlog_public_covers_statement_legacy_fixed_size.
+Print Assumptions dlog_frame_is_messages.
+Print Assumptions aggregate_dlog_rejects_wrong_length.
+Print Assumptions enc_trans_complete.
+Print Assumptions enc_trans_special_sound.
+Print Assumptions enc_trans_rejects_wrong_length.
+Print Assumptions enc_trans_public_covers_statement_v1.
+Print Assumptions enc_trans_public_covers_statement_fixed_size.
+Print Assumptions com_lin_complete.
+Print Assumptions com_lin_special_sound.
+Print Assumptions com_lin_rejects_wrong_length.
+Print Assumptions com_lin_public_covers_statement_v1.
+Print Assumptions com_lin_public_covers_statement_fixed_size.
+Print Assumptions com_ineq_complete.
+Print Assumptions com_ineq_extracted_witness.
+Print Assumptions com_ineq_context_covers_statement.
+
+(** com_eq_different_groups: two modules over one field *)
+Section TwoGroups.
+  Context (K : FieldOps) (KL : FieldLaws K) (M1 M2 : ModOps K) (ML1 : ModLaws M1) (ML2 : ModLaws M2)
+          (Cd1 : CodecOps M1) (Cd2 : CodecOps M2) (CL1 : CodecLaws Cd1) (CL2 : CodecLaws Cd2).
+  Theorem com_eq_different_groups_complete : complete (ced_proto Cd1 Cd2) ced_rel (fun _ _ => True).
+  Proof. exact (ced_complete_ Cd1 Cd2). Qed.
+  Theorem com_eq_different_groups_special_sound : special_sound (ced_proto Cd1 Cd2) ced_rel ced_extractor.
+  Proof. exact (ced_special_sound_ Cd1 Cd2). Qed.
+  Theorem com_eq_different_groups_public_covers_statement : forall k, public_prefix_free (ced_proto Cd1 Cd2) k (fun _ => True).
+  Proof. exact (ced_public_prefix_free_ Cd1 Cd2). Qed.
+End TwoGroups.
+Print Assumptions com_eq_different_groups_complete.
+Print Assumptions com_eq_different_groups_special_sound.
+Print Assumptions com_eq_different_groups_public_covers_statement.
 
 (** * Non-vacuity: the hypotheses are satisfiable, on the executable instance (Z mod r) *)
 (** a valid dlog statement (public = 3 * coeff), its honest transcript is reproduced *)
